@@ -9,6 +9,8 @@ import NumbersModel.Drv.Proto
 import NumbersModel.Gen.TrA1
 import NumbersModel.Gen.TrItems
 import NumbersModel.Gen.TrNumFmt
+import NumbersModel.Gen.TrAddr
+import NumbersModel.Drv.Addressing
 
 open NumbersModel NumbersModel.Drv NumbersModel.Gen.T
 
@@ -53,12 +55,24 @@ def handleTrNumFmt : List String → Option String
     pure (showPyM showText (twos_complement v b))
   | _ => none
 
+def handleTrAddr : List String → Option String
+  | ["iterrows", rows, cols, a, b, c, d] => do
+    let rows ← rows.toNat?; let cols ← cols.toNat?
+    let a ← addrOptInt a; let b ← addrOptInt b; let c ← addrOptInt c; let d ← addrOptInt d
+    pure (showPyM showGrid ((iter_rows_bounds rows cols a b c d).map Addressing.rowsOf))
+  | ["itercols", rows, cols, a, b, c, d] => do
+    let rows ← rows.toNat?; let cols ← cols.toNat?
+    let a ← addrOptInt a; let b ← addrOptInt b; let c ← addrOptInt c; let d ← addrOptInt d
+    pure (showPyM showGrid ((iter_cols_bounds rows cols c d a b).map Addressing.colsOf))
+  | _ => none
+
 def trDispatch (line : String) : String :=
   let ws := (line.splitOn " ").filter (· ≠ "")
   let r : Option String := match ws with
     | "a1" :: rest => handleTrA1 rest
     | "items" :: rest => handleTrItems rest
     | "numfmt" :: rest => handleTrNumFmt rest
+    | "addr" :: rest => handleTrAddr rest
     | _ => none
   match r with
   | some s => s
